@@ -346,8 +346,10 @@ fn sequential_outcomes(case: &PolCase) -> Option<Vec<(Vec<Vec<String>>, Vec<Stri
             crate::watch::beat();
             exec_memc(&sys.memc, o);
         }
+        if !sys.scans.lock().unwrap().is_empty() {
+            return None; // the prelude evicted: this run starts from another content
+        }
         sys.clock.0.fetch_add(case.tick, Ordering::SeqCst);
-        sys.scans.lock().unwrap().clear();
         let mut pos = vec![0; case.threads.len()];
         let mut results = vec![Vec::new(); case.threads.len()];
         for t in ord {
@@ -575,7 +577,19 @@ pub fn run_cases(seed: u64, cases: usize, fixed: Vec<(PolCase, Vec<usize>)>, tra
         // of the commands — except for the read-modify-write commands (known finding C04)
         let rmw = case.threads.iter().flatten().any(|o| o.class() != "base");
         let total_ops: usize = case.threads.iter().map(|t| t.len()).sum();
-        if res.scans.is_empty() && !rmw && total_ops <= 7 {
+        // what the prelude evicts is the random generator's choice too: a re-run starts elsewhere
+        let prelude_evicted = res.prelude_victims.iter().any(|v| !v.is_empty());
+        // an unconditional store reserves its CAS before it stores (two steps: the reservation is
+        // an internal event of the specification, C03_linearizable); a CAS literal that equals a
+        // value the counter issues inside the window can match such a reserved value, which no
+        // order of whole commands reproduces. Literals are comparable when they are 0, a token of
+        // the prelude, or far above the counter.
+        let npre = case.prelude.len() as u64;
+        let literal_in_window = case.threads.iter().flatten().any(|o| match o {
+            COp::Set(_, _, _, _, c) | COp::Del(_, c) => *c > npre && *c < 900_000,
+            _ => false,
+        });
+        if res.scans.is_empty() && !rmw && total_ops <= 7 && !prelude_evicted && !literal_in_window {
             if let Some(seqs) = sequential_outcomes(&case) {
                 let got: Vec<Vec<String>> = res.mresults.iter().map(|v| v.iter().map(|r| crate::conc::strip(r)).collect()).collect();
                 let content = content_of(&res.dump);
